@@ -79,6 +79,11 @@ def gen_c13(tier, rng):
             for vn in (0, 1, 2, 7):
                 ops.append("bld if %s %s %s" % (prior, proto.hexs(proto.rand_bytes(rng, n)), proto.hexs(proto.rand_bytes(rng, vn))))
         cases.append(Case("c13", ops, True, ("if", "lists"), meta={"kind": "if"}))
+    # TECMP::LinPayload::setData
+    ops = []
+    for n in range(0, 64):
+        ops.append("tpl lindata %s %s" % (proto.hexs(proto.rand_bytes(rng, rng.choice([2, 3, 10, 70]))), proto.hexs(proto.rand_bytes(rng, n))))
+    cases.append(Case("c13t", ops, True, ("tecmplin", "every-length")))
     # re-setting data on an object that already holds different data (longer, shorter): chains
     for k in KEEP:
         for _ in range(20 if tier == "quick" else 200):
